@@ -29,12 +29,12 @@ func checkC10(c *Ctx) {
 		pkg := p.ByPath[modPath+"/"+pk]
 		if rf := p.Func(pk, "Domain", "ReadFrom"); rf != nil {
 			RequireFacts(c, p, "C10.codec", rf, AcceptNilErr, nil, []Req{
-				{"header-read", `^noerr encoding/binary\.Read\(p0,.*pr\.Cardinality\)$`},
+				{"header-read", `^noerr encoding/binary\.Read\(p0,.*pr\.Cardinality\)$|^noerr io\.ReadFull\(p0,local:\[8\]byte`},
 				{"elements-read-fully", `^noerr io\.ReadFull\(p0,`},
 				{"elements-canonical", `^noerr (bigEndian|littleEndian)\.Element\(`},
-				{"flag-read", `^noerr encoding/binary\.Read\(p0,.*pr\.withPrecompute\)$`},
-				{"cardinality-non-zero", `^0 != pr\.Cardinality$|^pr\.Cardinality != 0$|^0 < pr\.Cardinality$`},
-				{"cardinality-power-of-two", `pr\.Cardinality-1\)&pr\.Cardinality\) == 0|pr\.Cardinality&\(pr\.Cardinality-1\)\) == 0`},
+				{"flag-read", `^noerr encoding/binary\.Read\(p0,.*pr\.withPrecompute\)$|^noerr io\.ReadFull\(p0,local:\[1\]byte`},
+				{"cardinality-non-zero", `^0 != pr\.Cardinality$|^pr\.Cardinality != 0$|^0 < pr\.Cardinality$|^1 == math/bits\.OnesCount64\(pr\.Cardinality\)$`},
+				{"cardinality-power-of-two", `pr\.Cardinality-1\)&pr\.Cardinality\) == 0|pr\.Cardinality&\(pr\.Cardinality-1\)\) == 0|^1 == math/bits\.OnesCount64\(pr\.Cardinality\)$`},
 				{"cardinality-within-2-adicity", `^noerr Generator\(pr\.Cardinality\)$`},
 			})
 			// MUST-PASS: a decoded domain with the precompute flag set has its tables rebuilt from
